@@ -277,6 +277,22 @@ def standin_batches(tier, seed):
                 fails.append(dict(args=args, failed="batch-results", clause=problem))
         if len(fails) >= 3:
             break
+    # one fixed input with the parameters given as a LIST OF RESOLVERS per program (as many resolvers as programs in the batch)
+    c1 = cirq.Circuit(cirq.X(qs[0]) ** v, cirq.measure(qs[0], key="m"))
+    c2 = cirq.Circuit(cirq.X(qs[0]), cirq.X(qs[0]) ** v, cirq.measure(qs[0], key="m"))
+    ps = [cirq.ParamResolver({"v": 0}), cirq.ParamResolver({"v": 1})]
+    cases += 1
+    shapes = {}
+    for jpb in (1, 2):
+        sampler = cg.ProcessorSampler(processor=SimulatedLocalProcessor(processor_id="p", sampler=cirq.Simulator(seed=1)), jobs_per_batch=jpb)
+        try:
+            out = sampler.run_batch([c1, c2], [ps, ps], repetitions=2)
+            shapes[jpb] = [[(int(r.params.value_of(v)), int(r.measurements["m"][0][0])) for r in rs] for rs in out]
+        except Exception as ex:
+            shapes[jpb] = repr(ex)
+    if shapes[1] != [[(0, 0), (1, 1)], [(0, 1), (1, 0)]] or shapes[2] != shapes[1]:
+        fails.append(dict(args=dict(programs="[c1, c2]", params_list="[[v=0, v=1], [v=0, v=1]] as lists of resolvers", results_by_jobs_per_batch=repr(shapes)), failed="batch-resolver-lists",
+                          clause=f"run_batch with a list of resolvers per program: jobs_per_batch=1 gives {shapes[1]}, jobs_per_batch=2 gives {shapes[2]} (every program must get every resolver)"))
     return dict(function="cirq-google/cirq_google/engine/processor_sampler.py:ProcessorSampler.run_batch", case="batches",
                 bound="seeded batches of 2-4 deterministic programs (own sweep and repetition count each) x list / mapping with unsorted keys x jobs_per_batch in {1, 2, 3, 5}, local simulated processor",
                 cases=cases, distinct=cases, failures=len(fails), exhaustive=False, _fails=fails[:3])
